@@ -235,7 +235,10 @@ def canon(v):
     if isinstance(v, bool):
         return [b'b', int(v)]
     if isinstance(v, str):
-        return v.encode('latin-1')
+        try:
+            return v.encode('latin-1')
+        except UnicodeEncodeError:
+            return [b'u', v.encode('utf-8')]       # a string no expected value can contain
     if isinstance(v, dict):
         return [b'd', sorted([[k.encode(), canon(x)] for k, x in v.items()])]
     if isinstance(v, list):
